@@ -47,6 +47,9 @@ impl Scenario {
 }
 
 pub fn run_scenario(s: &Scenario, prefix: &[u8]) -> RunOutcome {
+    if std::env::var("SIM_TRACE_PREFIX").is_ok() {
+        eprintln!("RUN {} {:?}", s.name, prefix);
+    }
     let p = s.program.clone();
     run_one(&s.cfg, prefix, move |c| p(c))
 }
@@ -204,7 +207,9 @@ pub fn explore(args: &Args, rep: &mut Report, scenarios: Vec<Scenario>) {
                 if d == 1 && runs % 97 == 0 {
                     rep.sample(json!({"scenario": s.name, "prefix": prefix, "end": format!("{:?}", out.end), "obs_tail": out.obs.iter().rev().take(6).rev().collect::<Vec<_>>()}));
                 }
-                if d < s.bound {
+                // An execution that did not terminate (step / datagram cap: a message storm) is a finding by itself; its
+                // trace can hold 10^5 choice points and is not expanded further
+                if d < s.bound && !matches!(out.end, End::StepCap) {
                     for i in (prefix.len()..out.trace.len()).rev() {
                         for alt in (1..out.trace[i].n).rev() {
                             let mut p = got[..i].to_vec();
